@@ -11,7 +11,7 @@ def P(lst):
     return [{"P": p} for p in lst]
 
 DEEP = ["schema-len", "location", "errmsg"]
-SCAN_ALL = list(range(0, 31))
+SCAN_ALL = list(range(0, 33))
 CORE_ALL = list(range(0, 17))
 
 def next_total(quickN, thoroughN, ps, stubsets=DEEP, **kw):
@@ -47,6 +47,7 @@ DOC_NOT = ["documents outside the template menu or longer than K lines", "schema
 STRUCT = doc("VerifH_CatalogStructure", {"K": 3, "MENU": 0}, {"K": 4, "MENU": 0})
 STRUCT_TAGS = doc("VerifH_CatalogStructure", {"K": 4, "MENU": 1}, {"K": 5, "MENU": 1})
 STRUCT_PARENS = doc("VerifH_CatalogStructure", {"K": 5, "MENU": 2}, {"K": 6, "MENU": 2})
+STRUCT_RESP = doc("VerifH_CatalogStructure", {"K": 4, "MENU": 3}, {"K": 5, "MENU": 3}, full_schema_lib=True)
 PGRAPH = doc("VerifH_PasteGraph", {"M": 3}, {"M": 4}, budget_violation=True, depth_budget=300)
 
 CHECKS = {
@@ -57,6 +58,7 @@ CHECKS = {
    next_total(2, 3, [0, 1, 8, 12], stubsets=["schema-len"]),
    LOC,
    scan_project({"N": 2, "M": 1}, {"N": 3, "M": 2}, CORE_ALL),
+   {"pkg": "core", "fn": "VerifH_IncludeQuoted", "quick": {"N": 3}, "thorough": {"N": 5}, "stubsets": ["vfs", "location"]},
    {"pkg": "core", "fn": "VerifH_ContextResolution", "quick": {"K": 3}, "thorough": {"K": 5}, "stubsets": ["location"], "tabsets": ["kinds"]},
    doc("VerifH_PipelineTotal", {"K": 2, "MENU": 0}, {"K": 3, "MENU": 0}, budget_violation=True),
    doc("VerifH_PipelineTotal", {"K": 2, "MENU": 1}, {"K": 3, "MENU": 1}, budget_violation=True, full_schema_lib=True),
@@ -93,6 +95,7 @@ CHECKS = {
    doc("VerifH_Determinism", {"K": 2, "MENU": 0}, {"K": 3, "MENU": 0}, maporder=True, replay_repeat=30),
    {"pkg": "core", "fn": "VerifH_DeterminismUnusedParams", "quick": {}, "thorough": {}, "maporder": True, "replay_repeat": 30},
    doc("VerifH_DeterminismPathBinding", {}, {}, maporder=True, replay_repeat=30),
+   doc("VerifH_CrossProject", {"K": 1}, {"K": 2}),
   ],
   "assumptions": DOC_ASSUME + ["map iteration order is a nondeterministic choice: at every Next of a map range the engine forks over all not yet visited entries, independently in the two runs of the self-composition",
                                "a counterexample is replayed natively up to 30 times (the Go runtime picks the order at random)"],
@@ -101,20 +104,22 @@ CHECKS = {
  },
  "C04": {
   "title": "Catalog faithfulness",
-  "harnesses": [STRUCT, STRUCT_TAGS, STRUCT_PARENS],
+  "harnesses": [STRUCT, STRUCT_TAGS, STRUCT_PARENS, STRUCT_RESP],
   "assumptions": DOC_ASSUME + ["reference model (refCatalogSig): reads info, servers, types, tags (declared first, then automatic per first path segment), and interactions with id / method / path / annotation / description / tags / request / responses off the template sequence using the C06 reference resolver for nesting"],
   "not_decided": DOC_NOT + ["documents with MACRO / PASTE (compared relationally by C07)"],
  },
  "C05": {
   "title": "Surface syntax is immaterial",
-  "harnesses": [doc("VerifH_SurfaceSyntax", {"K": 2}, {"K": 3}),
+  "harnesses": [doc("VerifH_SurfaceSyntax", {"K": 2, "MENU": 0}, {"K": 3, "MENU": 0}),
+                doc("VerifH_SurfaceSyntax", {"K": 2, "MENU": 1}, {"K": 3, "MENU": 1}, full_schema_lib=True),
+                doc("VerifH_SurfaceSyntax", {"K": 3, "MENU": 2}, {"K": 4, "MENU": 2}, full_schema_lib=True),
                 {"pkg": "directive", "fn": "VerifH_QuoteNeutral", "quick": {"N": 4}, "thorough": {"N": 6}}],
   "assumptions": DOC_ASSUME + ["one rewriting per run, at a symbolic position: comment line, block-comment line, blank line, indentation (spaces / tab), trailing blanks, trailing comment, CRLF or CR for every line end, quotes around a parameter, parentheses around the children of a directive"],
   "not_decided": DOC_NOT + ["combinations of several rewritings", "rewritings inside schema bodies and multi-line free text", "byte-level relational scanner harness (two scanners in lock step on symbolic bytes)"],
  },
  "C06": {
   "title": "Context resolution",
-  "harnesses": [CTX, {"pkg": "core", "fn": "VerifH_ContextAfterPaste", "quick": {"K": 4}, "thorough": {"K": 6}, "stubsets": ["location"], "tabsets": ["kinds"]}],
+  "harnesses": [CTX, {"pkg": "core", "fn": "VerifH_ContextAfterPaste", "quick": {"K": 5}, "thorough": {"K": 6}, "stubsets": ["location"], "tabsets": ["kinds"]}],
   "assumptions": [
    "directive kinds are symbolic over all 30 values; the admissibility predicates (IsAllowedForDirectiveContext / IsAllowedForRootContext / IsHTTPRequestMethod) are tabulated from the real code on each run (900+30+30 concrete executions) and used as exact summaries",
    "events are fed through the real processCurrentDirective / processContextEnd / processEOF; the lexeme-to-event mapping of core.next is covered by the C01 scanProject harness",
@@ -129,6 +134,7 @@ CHECKS = {
    {"pkg": "core", "fn": "VerifH_PasteEqualsInline", "quick": {"K": 5, "MENU": 1}, "thorough": {"K": 6, "MENU": 1}, "stubsets": ["location"], "budget_violation": True, "depth_budget": 300},
    PGRAPH,
    doc("VerifH_PasteEqualsInline", {"K": 3, "MENU": 3}, {"K": 4, "MENU": 3}, budget_violation=True, depth_budget=300, full_schema_lib=True),
+   doc("VerifH_PasteEqualsInline", {"K": 4, "MENU": 4}, {"K": 5, "MENU": 4}, budget_violation=True, depth_budget=300, full_schema_lib=True),
   ],
   "assumptions": [
    "schema-bearing instances (MENU 3: MACRO, PASTE, ENUM with a body, TYPE with an object body, GET with path, 200 @type): the real schema library is interpreted by the engine on the concrete bodies (no stub)",
@@ -145,6 +151,7 @@ CHECKS = {
    {"pkg": "core", "fn": "VerifH_IncludePath", "quick": {"N": 4}, "thorough": {"N": 6}, "stubsets": ["vfs", "location"]},
    {"pkg": "core", "fn": "VerifH_IncludeTargetKinds", "quick": {"N": 3}, "thorough": {"N": 5}, "stubsets": ["vfs", "location"]},
    STACKINV,
+   {"pkg": "core", "fn": "VerifH_IncludeQuoted", "quick": {"N": 3}, "thorough": {"N": 5}, "stubsets": ["vfs", "location"]},
    {"pkg": "core", "fn": "VerifH_IncludeEquivalence", "quick": {"KR": 3}, "thorough": {"KR": 4}, "stubsets": ["location", "vfs-files"], "full_schema_lib": True},
   ],
   "assumptions": [
@@ -158,7 +165,7 @@ CHECKS = {
   "harnesses": [
    {"pkg": "catalog", "fn": "VerifH_OrderedMaps", "quick": {}, "thorough": {}, "instances": [{"T": t} for t in range(5)], "lock_monitor": True, "no_replay_kinds": ["lock"], "no_replay_asserts": ["C16.ordmap.update-callback-under-write-lock"]},
    {"pkg": "catalog", "fn": "VerifH_IdInjective", "quick": {"N": 3}, "thorough": {"N": 4}},
-   STRUCT, STRUCT_TAGS,
+   STRUCT, STRUCT_TAGS, STRUCT_RESP,
   ],
   "assumptions": ["ordered collections: pre-state is any state with at most 3 entries satisfying the representation invariant; one step is inductive for histories of any length",
                   "collection keys are 1-byte strings (the code never looks inside a key)"],
@@ -184,7 +191,9 @@ CHECKS = {
  },
  "C11": {
   "title": "Static checks are sound",
-  "harnesses": [doc("VerifH_StaticChecks", {"K": 3}, {"K": 4})],
+  "harnesses": [doc("VerifH_StaticChecks", {"K": 3, "MENU": 0}, {"K": 4, "MENU": 0}),
+                doc("VerifH_StaticChecks", {"K": 4, "MENU": 1}, {"K": 5, "MENU": 1}, full_schema_lib=True),
+                doc("VerifH_StaticChecks", {"K": 2, "MENU": 2}, {"K": 3, "MENU": 2}, full_schema_lib=True)],
   "assumptions": DOC_ASSUME + ["fault predicates (refFaults): duplicate TYPE / SERVER / TAG name, same URL path twice, same method on the same path twice, second Title / Version / Description / Protocol / BaseUrl under one parent, Tags naming a tag no TAG directive declares (when some method uses that Tags directive)"],
   "not_decided": DOC_NOT + ["dangling type / enum references inside schema bodies", "faults injected through INCLUDE", "required-parameter faults (the templates always carry their parameters)", "paths differing only in a parameter name"],
  },
@@ -209,7 +218,7 @@ CHECKS = {
  },
  "C14": {
   "title": "Lexical integrity",
-  "harnesses": [next_total(3, 5, SCAN_ALL), next_total(2, 3, [0, 1, 8, 12], stubsets=["schema-len"])],
+  "harnesses": [next_total(3, 5, SCAN_ALL), next_total(2, 3, [0, 1, 8, 12], stubsets=["schema-len"]), next_total(4, 6, [4, 15, 29, 30, 31])],
   "assumptions": ["same stubs as C01; a body lexeme is compared with the (offset, length) the delimiting stub returned"],
   "not_decided": ["that the schema library's Len() delimits exactly one value", "inputs longer than prefix + N bytes"],
  },
@@ -251,7 +260,8 @@ CHECKS = {
  },
  "C20": {
   "title": "Locality",
-  "harnesses": [doc("VerifH_Locality", {"K": 2}, {"K": 3})],
+  "harnesses": [doc("VerifH_Locality", {"K": 2, "MENU": 0}, {"K": 3, "MENU": 0}),
+                doc("VerifH_Locality", {"K": 2, "MENU": 1}, {"K": 3, "MENU": 1}, full_schema_lib=True)],
   "assumptions": DOC_ASSUME + ["fresh declarations: SERVER @c, TAG @c, TYPE @c any, parenthesised unused MACRO @c, GET /c with a 200 response; inserted before any top-level line or at the end"],
   "not_decided": DOC_NOT + ["coupling through the schema library (every schema receives every type and rule)", "allOf graphs"],
  },
